@@ -159,6 +159,10 @@ def render_module(m, oracle=False):
         elif s["tc"]:
             guard = "if typing.TYPE_CHECKING:" if (k % 3 == 0 and not oracle) else "if TYPE_CHECKING:"
             out = [guard] + ["    " + l for l in block(s["pos"], body, k)]
+        elif k % 4 == 2:
+            # a guard that mentions TYPE_CHECKING but runs at run time: the import is a runtime import
+            guard = "if not typing.TYPE_CHECKING:" if (k % 8 == 6 and not oracle) else "if not TYPE_CHECKING:"
+            out = [guard] + ["    " + l for l in block(s["pos"], body, k)]
         else:
             out = block(s["pos"], body, k)
         lines += out
